@@ -32,8 +32,9 @@ def pool_off():
     L.detsim_install(0)
 
 
-def pool_on(cfg, explicit=None):
+def pool_on(cfg, explicit=None, ordered=False):
     L.detsim_reset_trace()
+    L.detsim_set_ordered(1 if ordered else 0)
     if explicit is not None:
         flat = [len(explicit)]
         for d in explicit:
@@ -149,6 +150,9 @@ def gen_plan(seed, idx):
                     k = "alias"
             if i >= 1 and inplace and args[0].get("kind") == "masked" and e["args"][0] in PT.ARRAYS and r.chance(0.3):
                 k = "unmasked"     # the path only a masked in-place left-hand side has: make it common enough
+            if (i >= 1 and inplace and args[0].get("kind") == "masked" and e["args"][0] == t and mismatch_at < 0
+                    and k in ("direct", "masked") and not DIVLIKE.search(e["name"]) and r.chance(0.25)):
+                k = "overlap"      # another masked reference (other positions) into the left-hand side's own storage
             if k == "unmasked":
                 # right-hand side of unmasked length for a masked in-place left-hand side
                 if i >= 1 and inplace and args[0].get("kind") == "masked" and e["args"][0] in PT.ARRAYS:
@@ -261,7 +265,7 @@ def embed_contents(plan):
     mode, affine = plan["mode"], plan.get("affine")
     for i, a in enumerate(p2["args"]):
         t = a["t"]
-        if not PT.is_array(t) or a.get("kind") == "alias":
+        if not PT.is_array(t) or a.get("kind") in ("alias", "overlap"):
             continue
         n = a["n"]
         if a["kind"] == "masked":
@@ -351,6 +355,18 @@ class World:
                 continue
             cs = a["cs"]
             n = a["n"]
+            if k == "overlap":
+                a0 = plan["args"][0]
+                total = a0["n"] + a0["extra"]
+                pos = list(range(total))
+                Rng(cs ^ 0x1B873593).shuffle(pos)
+                pos = sorted(pos[:a0["n"]])
+                mask = imath.IntArray(total)
+                for p in pos:
+                    mask[p] = 1
+                self.maskpos[i] = pos
+                self.args.append(self.under0[mask])
+                continue
             if k == "masked":
                 total = n + a["extra"]
                 pos = list(range(total))
@@ -364,6 +380,8 @@ class World:
                     under.makeReadOnly()
                 ref = under[mask]
                 self.maskpos[i] = pos
+                if i == 0:
+                    self.under0 = under
                 self.tracked.append(("arg%d.underlying" % i, t, under))
                 self.args.append(ref)
             elif k == "unmasked":
@@ -482,6 +500,11 @@ def diff_result(a, b):
 # ---------------------------------------------------------------------------------------------------
 def entry_label(e):
     return "%s%s(%s)" % (e["owner"] + "." if e["owner"] else "", e["name"], ",".join(e["args"][1:] if e["owner"] else e["args"]))
+
+
+def run_label(plan):
+    """entry label of a run; runs whose operands overlap in storage form a class of their own (known finding)"""
+    return entry_label(plan["entry"]) + ("[overlapping-views]" if any(a.get("kind") == "overlap" for a in plan["args"]) else "")
 
 
 def kinds_label(plan):
@@ -720,7 +743,7 @@ def execute(plan, explicit=None):
     def fail(sig, detail):
         if out["verdict"] == "ok":
             out["verdict"] = "violation"
-            out["signature"] = "semantic/%s/%s" % (sig, entry_label(e))
+            out["signature"] = "semantic/%s/%s" % (sig, run_label(plan))
             out["detail"] = "%s | kinds=%s n=%d mode=%s" % (detail, kinds_label(plan), plan["n"], plan["mode"])
 
     # A: no pool
@@ -729,7 +752,10 @@ def execute(plan, explicit=None):
     ka, ra = run_world(plan, wa)
     # B: simulated pool
     wb = World(plan)
-    pool_on(plan["pool"], explicit)
+    # runs of the known finding 'overlapping views': the race is real but whether ThreadSanitizer sees it depends on
+    # the heap layout (2-byte elements, a handful of conflicting positions); O1 judges those runs, TSan is shown an
+    # ordered execution
+    pool_on(plan["pool"], explicit, ordered=any(a.get("kind") == "overlap" for a in plan["args"]))
     kb, rb = run_world(plan, wb)
     pool_off()
     trace = pool_trace()
@@ -773,7 +799,11 @@ def execute(plan, explicit=None):
                      "%r (no pool) vs %r (simulated pool)" % (wa.args[0], wb.args[0]))
         if mism and (type(rb).__name__ in PT.ARRAYS or rb is None) and trace:
             fail("o6-length-mismatch/accepted", "argument arrays of different length were accepted by a dispatched operation")
-        if out["verdict"] == "ok" and not mism:
+        overlap = any(a.get("kind") == "overlap" for a in plan["args"])
+        if overlap:
+            # element-wise meaning is order-defined only (position i reads what position j writes): O1, O6 and TSan judge
+            stats["probe.inplace_operand_overlaps_destination"] = 1
+        if out["verdict"] == "ok" and not mism and not overlap:
             n = plan["n"]
             bad = element_check(plan, wb, rb, o2_positions(plan, trace, n), stats)
             if bad:
@@ -882,7 +912,7 @@ def batch():
             seed = mix(base, 20, idx)
             plan = gen_plan(seed, idx)
             lab = entry_label(plan["entry"])
-            out.write("BEGIN %d %d %s\n" % (idx, seed, lab))
+            out.write("BEGIN %d %d %s\n" % (idx, seed, run_label(plan)))
             out.flush()
             res = execute(plan)
             for k, v in res["stats"].items():
@@ -912,7 +942,7 @@ def run_plan_file(path):
         doc = json.load(f)
     plan = doc["plan"]
     explicit = doc.get("schedule")
-    print("BEGIN 0 0 %s" % entry_label(plan["entry"]), flush=True)
+    print("BEGIN 0 0 %s" % run_label(plan), flush=True)
     res = execute(plan, explicit)
     print("RESULT " + json.dumps({"verdict": res["verdict"], "signature": res["signature"], "detail": res["detail"],
                                   "trace": res.get("trace"), "hash": res.get("hash")}), flush=True)
@@ -927,7 +957,7 @@ if __name__ == "__main__":
         idx = int(sys.argv[3])
         plan = gen_plan(mix(int(sys.argv[2]), 20, idx), idx)
         print("PLAN " + json.dumps(plan), flush=True)
-        print("BEGIN %d 0 %s" % (idx, entry_label(plan["entry"])), flush=True)
+        print("BEGIN %d 0 %s" % (idx, run_label(plan)), flush=True)
         res = execute(plan)
         print("RESULT " + json.dumps({"verdict": res["verdict"], "signature": res["signature"], "detail": res["detail"],
                                       "trace": res.get("trace"), "hash": res.get("hash")}), flush=True)
